@@ -50,6 +50,8 @@ type recWorld struct {
 	division  bool // this run's receiver also acknowledges in the middle of segments
 }
 
+func (scRecovery) NeutralISS(raw json.RawMessage) json.RawMessage { return neutralWin(raw) }
+
 func (scRecovery) GenCfg(rng *sim.Rand, tier, prop, variant string) json.RawMessage {
 	c := genWinCfg(rng, tier)
 	c.Role = 0
